@@ -80,6 +80,11 @@ type ReadProgress struct {
 
 var curProgress *ReadProgress
 
+// afterReadError, if set, runs before each NextReader call that follows the
+// first message-level error (what an application's retry loop would do, e.g.
+// arm a new read deadline).
+var afterReadError func(c *websocket.Conn, i int)
+
 // readBody reads r with the step's sizes until EOF, error or abandon point.
 func readBody(r io.Reader, st RStep) (data []byte, complete bool, err error) {
 	sr := &sizedReader{sizes: st.Sizes}
@@ -270,6 +275,9 @@ func RunReadP(c *websocket.Conn, steps []RStep, max int, lens []int, extraAfter 
 			if prog != nil {
 				prog.Req++
 				prog.Bytes = 0
+			}
+			if afterReadError != nil {
+				afterReadError(c, i)
 			}
 			mt, r, err := c.NextReader()
 			if err == nil {
